@@ -90,6 +90,7 @@ def expr(draw, scope, allow_default=True):
     pieces = draw(st.lists(st.one_of(
         st.sampled_from(["text ", "a;b ", "x=", "100% ", "<i> ", "& "]),
         ps.map(lambda x: "${%s}" % x),
+        st.builds(lambda a, b: "${%s | %s}" % (a, b), ps, ps),  # a full path expression, alternation included
         st.just("$$"),
         ps.map(lambda x: "$%s " % x),
     ), min_size=1, max_size=4))
